@@ -157,6 +157,21 @@ def run(tier, seed):
         for j, a in enumerate((g1.program(), g2.program(), gen_calls.generator_program(rng),
                                gen_match.match_random(rng, 1)[0], ge.program())):
             texts.append(("gen%d_%d" % (i, j), kast.render(kast.annotate_free(a), kast.Layout(random.Random(rng.getrandbits(32)), True))))
+    # interpolated strings whose value is discarded or used, with every kind of placeholder expression: the string builder
+    # instructions are balanced whether or not the compiler needs the string's value
+    PH = ["x", "g()", "debug x", "export q = 1", "export g()", "x = 2", "x += 1", "if x then 1 else 2", "[1, 2]", "'n {x}'", "x?.y", "-x", "not x",
+          "g().zz", "(1, 2)[0]", "|a| a", "match x\n    1 then 2", "x and 1", "x or g()", "1 < x < 3", "size [x]", "x -> g", "{a: x}", "throw 'no'", "koto.type x",
+          "debug x, x", "x, 2", "return 3", "yield 4", "import koto", "try g() catch e then 0" if False else "g() or return 1"]
+    TPL = ["x = 1\ng = || {zz: 9}\n'{%s} t'\nprint 'end'\n",
+           "x = 1\ng = || {zz: 9}\nf = |n|\n  '{%s} inner'\n  n\nprint 'A{f 1}B'\n",
+           "x = 1\ng = || {zz: 9}\nfor i in 0..2\n  '{%s} loop'\nprint 'end'\n",
+           "x = 1\ng = || {zz: 9}\nif x == 1\n  '{%s} a'\nelse\n  'b {%s}'\nprint 'end'\n",
+           "x = 1\ng = || {zz: 9}\nprint '{%s} used'\n",
+           "x = 1\ng = || {zz: 9}\ny = ['{%s} e', 2]\n'{%s}{x}'\nprint y\n",
+           "x = 1\ng = || {zz: 9}\nf = ||\n  '{%s}'\n  'last {%s}'\nprint f()\n"]
+    for pi, ph in enumerate(PH):
+        for ti, t in enumerate(TPL):
+            texts.append(("dstr:%d:%d" % (pi, ti), t.replace("%s", ph)))
     if not quick:
         for s in corpus.sources():
             for k, v in enumerate(corpus.token_neighbourhood(s["src"], rng, 12)):
@@ -189,7 +204,11 @@ def run(tier, seed):
             rejected += 1
     viol, points, st = explore(compiled, "c05")
     srcs = dict(texts)
+    rb = [f for f in rep.known if f["id"] == "RB1"]
     for v in viol:
+        if rb and v["invariant"] == "BalancedAtReturn" and any(c["source"] == srcs.get(v["chunk"], "") for c in rb[0]["inputs"]):
+            rep.known_finding("RB1", "%s: a return inside a string placeholder is compiled with the string builder still open" % v["chunk"])
+            continue
         rep.violation("cfg_%s" % v["chunk"], {"property": PROP, "why": "ChunkCfg invariant %s violated at ip %s %s" % (v["invariant"], v["ip"], v["detail"]),
                                               "source": srcs.get(v["chunk"], "")})
     bad, npoints = join_consistency(points)
